@@ -55,7 +55,15 @@ for _im in ('16-8', '4+4', '16-8-4', '8-16', '5-2', '3-5', '2*4', '2*4-1', '0x10
     CONST_ARITH.append('add eax, %s' % _im)
     CONST_ARITH.append('mov cl, %s' % _im)
     CONST_ARITH.append('push %s' % _im)
-CORPUS_INTEL = CORPUS_INTEL + CONST_ARITH
+# the six bracket productions of the Intel grammar ([e], sym[e], N[e], -N[e], N+sym[e], -N+sym[e]), with and without a
+# constant inside the brackets
+BRACKET_FORMS = []
+for _ad in ('ebx', 'ebx+4', 'eax*4', 'ebx+esi*2', 'ebx+esi*2+8'):
+    for _pre in ('', 'foo', '8', '-8', '8+foo', '-8+foo', '0x10+foo'):
+        BRACKET_FORMS.append('mov eax, DWORD PTR %s[%s]' % (_pre, _ad))
+        BRACKET_FORMS.append('lea ecx, %s[%s]' % (_pre, _ad))
+BRACKET_FORMS += ['push 8+foo[ebx]', 'push -8+foo[ebx]', 'mov eax, [ebx+foo+8]', 'mov eax, [ebx+foo-8]', 'jmp 4+tab[eax*4]', 'call foo[ebx]', 'inc BYTE PTR 1+foo[ebx]']
+CORPUS_INTEL = CORPUS_INTEL + CONST_ARITH + BRACKET_FORMS
 
 CORPUS_ATT = [
     'nop', 'ret', 'ret $4', 'leave', 'cltd', 'cwtl', 'cbtw', 'cwtd', 'clc', 'std', 'pushal', 'popal', 'pushfl', 'popfl', 'int $3', 'ud2', 'pause',
